@@ -2,7 +2,7 @@
 import json
 from .. import common
 
-T_TEXT = "name T\nversion 1.0\ntarget X8_01 (shots=10, flags=[1, 2])\n\nfloat array M =\n    {b}, 2\nfloat v = {b}\nG({a}) | 0\nVac | 1\nK(l=[1, 2]) | 0\n"
+T_TEXT = "name T\nversion 1.0\ntarget X8_01 (shots=10, flags=[1, 2])\n\nfloat array M =\n    {b}, 2\nfloat v = {b}\nG({a}, 2*q1) | 0\nVac | 1\nK(l=[1, 2]) | 0\n"
 P_TEXT = "name P\nversion 1.0\n\nint array N =\n    3, 4\nVac | 0\nH(5, 2*q0) | 1\n"
 
 
@@ -20,6 +20,8 @@ def digest(p):
             return ("set", tuple(sorted(d(v) for v in x)))
         if isinstance(x, np.ndarray):
             return ("arr", str(x.dtype), x.shape, tuple(d(v) for v in x.flatten().tolist()))
+        if type(x).__name__ == "RegRefTransform":
+            return ("rrt", str(x.expr), tuple(x.regrefs), x.func_str)
         return (type(x).__name__, repr(x))
     try:
         text = blackbird.dumps(p)
@@ -37,7 +39,7 @@ def value_ok(spec, real):
     if k == "sym":
         return isinstance(real, sym.Expr) and str(real) == spec["p"]
     if k == "rrt":
-        return type(real).__name__ == "RegRefTransform" and list(real.regrefs) == [spec["r"]]
+        return type(real).__name__ == "RegRefTransform" and list(real.regrefs) == (list(spec["regs"]) if "regs" in spec else [spec["r"]])
     if k == "list":
         return isinstance(real, list) and len(real) == len(spec["xs"]) and all(value_ok(a, b) for a, b in zip(spec["xs"], real))
     if k == "arr":
@@ -112,6 +114,12 @@ def run_history(case):
                     o.operations[0]["op"] = "Renamed"
                 elif a["kind"] == "set_option":
                     o.target["options"]["shots"] = 99
+                elif a["kind"] == "rrt_regref":
+                    t = o.operations[0]["args"][1]
+                    if i == 0:
+                        t.regrefs[0] += 3
+                    else:
+                        t.regrefs.append(7)
                 elif a["kind"] == "append_option_list":
                     o.target["options"]["flags"].append(3)
         except BaseException as e:      # noqa: BLE001
@@ -165,7 +173,7 @@ def run(rep, tier, seed):
     rep.cov["evaluations"] = len(cases)
     rep.cov["distinct_nontrivial"] = sum(1 for c in cases if any(a["act"] in ("call", "mutate", "digraph", "match") for a in c["hist"]))
     rep.cov["rule"] = ("every sequence of %d actions (dumps, attribute reads, to_DiGraph, match_template, template calls with 2 environments creating up to "
-                       "2 instances, 7 kinds of mutation of an instance (argument list, keyword dict, array element, variable dict, operation name, target option, list inside a target option)) over a template with an argument-less operation, a list keyword, a parameterised "
+                       "2 instances, 8 kinds of mutation of an instance (argument list, keyword dict, array element, variable dict, operation name, target option, list inside a target option, register list of a feed-forward argument)) over a template with an argument-less operation, a feed-forward argument, a list keyword, a parameterised "
                        "array and scalar variable, and a plain program; after every action a deep digest (structure + dumps text) of every live object" % depth)
 
 
